@@ -225,7 +225,7 @@ def check(case: t.Any, ctx: Ctx) -> None:
 def dup_cases(shard: int, nshards: int) -> t.Iterator[t.Any]:
     i = 0
     for lay in ('internal', 'external', ['adjacent', 't', 'c']):
-        for vals in (['a', 'a'], [1, 1], ['a', 'b', 'a'], [1, 2, 2], ['a', 'b'], 'inherited-tag-overridden-without-annotation', 'inherited-tag-overridden-with-annotation'):
+        for vals in (['a', 'a'], [1, 1], ['a', 'b', 'a'], [1, 2, 2], ['a', 'b'], 'inherited-tag-overridden-without-annotation', 'inherited-tag-overridden-with-annotation', 'dict-subclass-variants'):
             if i % nshards == shard:
                 yield [lay, vals]
             i += 1
@@ -234,6 +234,29 @@ def dup_cases(shard: int, nshards: int) -> t.Iterator[t.Any]:
 def check_dup(case: t.Any, ctx: Ctx) -> None:
     from pane.convert import make_converter
     (lay, vals) = case
+    if vals == 'dict-subclass-variants':
+        # variants that are mapping types themselves (dict subclasses carrying the tag as a class attribute, as in pane's own tests):
+        # an instance held in a field of type Optional[union] is written in the union's layout and read back as the same variant
+        import pane
+        from pane.annotations import Tagged
+        Circle = type('Circle', (dict,), {'kind': 'circle'})
+        Square = type('Square', (dict,), {'kind': 'square'})
+        ext = {'internal': False, 'external': True}.get(lay if isinstance(lay, str) else '', tuple(lay[1:]) if not isinstance(lay, str) else False)
+        TU = t.Annotated[t.Union[Circle, Square], Tagged('kind', external=ext)]
+        Drawing = type('Drawing', (pane.PaneBase,), {'__annotations__': {'name': str, 'shape': t.Optional[TU], 'more': t.List[TU]}})
+        ctx.label('dict-subclass-variants')
+        ctx.nontrivial(True)
+        x = Drawing.make_unchecked(name='d', shape=Circle({'r': 2}), more=[Square({'s': 1})])
+        ctx.evaluated()
+        (k, d) = outcome(lambda: pane.into_data(x, Drawing))
+        (k2, y) = outcome(lambda: pane.from_data(d, Drawing)) if k == 'ok' else ('-', None)
+        if k != 'ok' or k2 != 'ok' or type(y.shape) is not Circle or dict(y.shape) != {'r': 2} or type(y.more[0]) is not Square:
+            ctx.fail('layouts-symmetric', 'dict-subclass-variant', f"variants Circle(dict) / Square(dict) with class attribute kind, layout {lay}: Drawing(shape=Circle({{'r': 2}}), more=[Square({{'s': 1}})]) "
+                     f"written as {short(d, 120)} ({k}), read back as {short(y, 120)} ({k2})")
+        (k3, z) = outcome(lambda: make_converter(TU).convert(Circle({'r': 3})))
+        if k3 != 'ok' or type(z) is not Circle:
+            ctx.fail('tag-dispatch', 'dict-subclass-variant:instance', f"layout {lay}: a Circle instance given to the union's converter: {k3} {short(z, 100)}")
+        return
     if isinstance(vals, str):
         # variants that inherit the tag field from a common base and override it in their body: the tag a variant *declares* is the
         # tag its instances *carry*; if two variants carry the same tag the union is refused, otherwise data is dispatched by it
